@@ -18,7 +18,7 @@
  *                                                      composed as property C01 describes)
  *   M s orc oa ob       -> ret hex(eav_errstr)             (default settings: eav_init; eav_setup; eav_is_email)
  *   J m mask tld rc     -> ret errcode                       (eav_is_email over a stub callback returning rc)
- *   A op op ...         -> one token per op                  (façade history, see run_history)
+ *   A op op ...         -> one token per op                  (façade history, see run_history; op n = eav_is_email (e, NULL, 0))
  *   W s                 -> cp,cp,...,E|X at_byte at_character  (utf8_decode_init/next over s: every scalar value delivered, then E(nd) or X (error))
  */
 #ifndef _GNU_SOURCE
@@ -272,6 +272,17 @@ static void run_history (char **tok, int ntok)
             printf ("R%d:%d:%ld:%d,%d,%d%d%d,%d,%d", ret, e->errcode, n_alloc - n_free - base,
                     e->result->rc, (int) e->result->idn_rc, e->result->is_ipv4, e->result->is_ipv6,
                     e->result->is_domain, idn_calls, idn_argok);
+            continue;
+        }
+        case 'n': {     /* the call the library itself answers for a missing address: (NULL, 0) */
+            idn_calls = 0; idn_argok = 1; o_expect = NULL;
+            int ret = eav_is_email (e, NULL, 0);
+            if (e->result)
+                printf ("R%d:%d:%ld:%d,%d,%d%d%d,%d,%d", ret, e->errcode, n_alloc - n_free - base,
+                        e->result->rc, (int) e->result->idn_rc, e->result->is_ipv4, e->result->is_ipv6,
+                        e->result->is_domain, idn_calls, idn_argok);
+            else
+                printf ("R%d:%d:%ld:NORESULT", ret, e->errcode, n_alloc - n_free - base);
             continue;
         }
         default: fputs ("BADOP", stdout); break;
